@@ -199,6 +199,18 @@ theorem no_duplicate_delivery (e : WExpr) (hwf : WF e = true) (hd : (sinks e).No
   rw [(one_write_per_record e hwf m).1]
   exact (sel_sublist e m).nodup hd
 
+/-- what fmt_subscriber.rs must say NOW about a busy buffer -/
+theorem busy_buffer_fact : onEventBusyBufferFallsBack = true := by decide
+
+/-- **C13.nested_record_not_lost** — an event that reaches the formatting layer while the same thread is formatting another one
+(a value whose Debug / Display emits through the dispatcher) still gets its own complete record, asked for with ITS metadata and
+written to exactly the sinks the expression denotes for it, before the outer record, which is unaffected -/
+theorem nested_record_not_lost (e : WExpr) (hwf : WF e = true) (inner outer : WMeta) :
+    (emitNested e inner outer).map (·.1) = sel e inner ++ sel e outer ∧
+    emitNested e inner outer = emitRecord e inner ++ emitRecord e outer := by
+  simp only [emitNested, busy_buffer_fact, if_true, List.map_append, (one_write_per_record e hwf inner).1,
+    (one_write_per_record e hwf outer).1, and_self]
+
 /-! ### histories of records (every length) -/
 
 /-- fmt handles a history of records one after the other -/
